@@ -31,6 +31,8 @@ pub struct World {
     scfg: ServerConfig<sv::SslConfig>,
     links: Arc<std::sync::Mutex<Vec<tokio::task::AbortHandle>>>,
     baseline: std::sync::Mutex<Option<(usize, usize)>>,
+    /// client-server transport is quic (a connection's driver task outlives its streams until the connection has drained)
+    quic: bool,
 }
 
 pub struct TcpScript {
@@ -139,6 +141,7 @@ impl World {
             scfg,
             links,
             baseline: std::sync::Mutex::new(None),
+            quic: tls == Some("quic"),
         })
     }
 
@@ -194,9 +197,15 @@ impl World {
     pub fn fd_check(&self) -> String {
         let Some(base) = *self.baseline.lock().unwrap() else { return "bad-op".to_owned() };
         let mut now = self.usage();
-        for _ in 0..160 {
+        for i in 0..800 {
             if now.0 <= base.0 && now.1 <= base.1 {
                 return "baseline".to_owned();
+            }
+            // descriptors must be back within 8 s.  Over quic the driver task of a connection whose peer went away without
+            // a close handshake stays until the connection's idle timeout (30 s, quinn's default) has drained it: tasks (not
+            // descriptors) get that long before they count as leaked
+            if i >= 160 && !(self.quic && now.0 <= base.0) {
+                break;
             }
             self.rt.block_on(async { tokio::time::sleep(Duration::from_millis(50)).await });
             now = self.usage();
